@@ -73,6 +73,12 @@ package go2coq
 // receiver, an argument of a table function, in a comparison with nil, in a return statement,
 // or as the target of its single defining assignment from new / & / a call); no goroutines,
 // channels, select, goto, labels, closures other than the two forms above, recover.
+//
+// Data carried through effectful code -- library struct types with a table record, slices of
+// structs, range over them, read-only pointer parameters, variadic library functions, append,
+// *p of a package-level pointer variable, a function literal handed to a library function as a
+// definition of its own -- is added by world_data.go; its conditions are stated at the top of
+// that file.
 
 import (
 	"fmt"
